@@ -24,6 +24,12 @@ func init() {
 			{Name: "next hop recorded as the origin", ExpectRule: "C12.R1", ExpectKey: "ProcessDomainRouteAdvertise", Edits: []Edit{
 				{File: "internal/routing/manager.go", Old: "\t\t\tBaseDomain:  baseDomain,\n\t\t\tNextHop:     fromPeer,", New: "\t\t\tBaseDomain:  baseDomain,\n\t\t\tNextHop:     originAgent,"},
 			}},
+			{Name: "recorded path drops its first hop", ExpectRule: "C12.R1", ExpectKey: "ProcessForwardRouteAdvertise ForwardRoute literal #1 Path", Edits: []Edit{
+				{File: "internal/routing/manager.go", Old: "\t\t\tMetric:      entry.Metric + 1, // Increment metric\n\t\t\tPath:        path,\n\t\t\tEncPath:     encPath,\n\t\t\tSequence:    sequence,\n\t\t}\n\n\t\tif m.forwardTable.AddRoute(route) {", New: "\t\t\tMetric:      entry.Metric + 1, // Increment metric\n\t\t\tPath:        path[1:],\n\t\t\tEncPath:     encPath,\n\t\t\tSequence:    sequence,\n\t\t}\n\n\t\tif m.forwardTable.AddRoute(route) {"},
+			}},
+			{Name: "handler records the path with the sender prepended again", ExpectRule: "C12.R1", ExpectKey: "Path", Edits: []Edit{
+				{File: "internal/flood/flood.go", Old: "\t\tf.routeMgr.ProcessRouteAdvertise(fromPeer, originAgent, sequence, cidrEntries, path, encPath)", New: "\t\tf.routeMgr.ProcessRouteAdvertise(fromPeer, originAgent, sequence, cidrEntries, append([]identity.AgentID{fromPeer}, path...), encPath)"},
+			}},
 			{Name: "dispatcher hands the advertised origin as sender", ExpectRule: "C12.R1", Edits: []Edit{
 				{File: "internal/agent/agent.go", Old: "\ta.flooder.HandleRouteAdvertise(peerID, adv.OriginAgent, adv.OriginDisplayName, adv.Sequence, adv.Routes, adv.EncPath, adv.SeenBy)\n}", New: "\ta.flooder.HandleRouteAdvertise(adv.OriginAgent, adv.OriginAgent, adv.OriginDisplayName, adv.Sequence, adv.Routes, adv.EncPath, adv.SeenBy)\n}"},
 			}},
@@ -59,6 +65,29 @@ func init() {
 			}},
 			{Name: "UDP datagrams no longer dispatched", ExpectRule: "C12.R4", ExpectKey: "FrameUDPDatagram", Edits: []Edit{
 				{File: "internal/agent/agent.go", Old: "\tcase protocol.FrameUDPDatagram:\n\t\ta.handleUDPDatagram(peerID, frame)\n", New: ""},
+			}},
+			{Name: "hop-limit test moved behind the seen-cache mark (seed C12-a)", ExpectRule: "C12.R6", ExpectKey: "HandleRouteAdvertise", Edits: []Edit{
+				{File: "internal/flood/flood.go", Old: "\tif f.cfg.MaxHops > 0 && hops > f.cfg.MaxHops {\n\t\treturn false\n\t}\n", New: "\ttooFar := f.cfg.MaxHops > 0 && hops > f.cfg.MaxHops\n"},
+				{File: "internal/flood/flood.go", Old: "\t// Check if we're in the seen-by list (loop detection)\n\tif containsAgent(seenBy, f.localID) {\n\t\treturn false\n\t}\n\n\t// Convert protocol routes", New: "\t// Check if we're in the seen-by list (loop detection)\n\tif containsAgent(seenBy, f.localID) || tooFar {\n\t\treturn false\n\t}\n\n\t// Convert protocol routes"},
+			}},
+			{Name: "announcements from the origin itself preferred after the mark", ExpectRule: "C12.R6", ExpectKey: "HandleRouteAdvertise", Edits: []Edit{
+				{File: "internal/flood/flood.go", Old: "\t// Check if we're in the seen-by list (loop detection)\n\tif containsAgent(seenBy, f.localID) {\n\t\treturn false\n\t}\n\n\t// Convert protocol routes", New: "\t// Check if we're in the seen-by list (loop detection)\n\tif containsAgent(seenBy, f.localID) {\n\t\treturn false\n\t}\n\tif len(seenBy) > 1 && fromPeer != originAgent && len(routes) == 0 {\n\t\treturn false\n\t}\n\n\t// Convert protocol routes"},
+			}},
+			{Name: "node info without a plaintext path dropped after the mark", ExpectRule: "C12.R6", ExpectKey: "HandleNodeInfoAdvertise", Edits: []Edit{
+				{File: "internal/flood/flood.go", Old: "\t// Store the node info in the routing manager (handles decryption if possible)\n", New: "\tif len(seenBy) > 8 {\n\t\treturn false\n\t}\n\t// Store the node info in the routing manager (handles decryption if possible)\n"},
+			}},
+			{Name: "agent-presence entry refreshed in place keeps its path (seed C12-b)", ExpectRule: "C12.R5", ExpectKey: "(*routing.AgentTable).AddRoute", Edits: []Edit{
+				{File: "internal/routing/agent.go", Old: "\t\t\t\tcloned := route.Clone()\n\t\t\t\tcloned.LastUpdate = time.Now()\n\t\t\t\tt.routes[key][i] = cloned\n", New: "\t\t\t\t_ = i\n\t\t\t\tr.Metric = route.Metric\n\t\t\t\tr.Sequence = route.Sequence\n\t\t\t\tr.LastUpdate = time.Now()\n"},
+			}},
+			{Name: "domain entry refreshed in place, path updated but not the encoded path", ExpectRule: "C12.R5", ExpectKey: "(*routing.DomainTable).AddRoute", Edits: []Edit{
+				{File: "internal/routing/domain.go", Old: "\t\t\t\tcloned := route.Clone()\n\t\t\t\tcloned.LastUpdate = time.Now()\n\t\t\t\ttargetMap[key][i] = cloned\n", New: "\t\t\t\t_ = i\n\t\t\t\tr.Metric, r.Sequence, r.Path, r.NextHop = route.Metric, route.Sequence, route.Path, route.NextHop\n\t\t\t\tr.LastUpdate = time.Now()\n"},
+			}},
+			{Name: "rewrite: hop limit after the mark but the mark is taken back", Edits: []Edit{
+				{File: "internal/flood/flood.go", Old: "\tif f.cfg.MaxHops > 0 && hops > f.cfg.MaxHops {\n\t\treturn false\n\t}\n", New: "\ttooFar := f.cfg.MaxHops > 0 && hops > f.cfg.MaxHops\n"},
+				{File: "internal/flood/flood.go", Old: "\t// Check if we're in the seen-by list (loop detection)\n\tif containsAgent(seenBy, f.localID) {\n\t\treturn false\n\t}\n\n\t// Convert protocol routes", New: "\t// Check if we're in the seen-by list (loop detection)\n\tif containsAgent(seenBy, f.localID) {\n\t\treturn false\n\t}\n\tif tooFar {\n\t\tf.mu.Lock()\n\t\tdelete(f.seenCache, key)\n\t\tf.mu.Unlock()\n\t\treturn false\n\t}\n\n\t// Convert protocol routes"},
+			}},
+			{Name: "rewrite: stored entry refreshed in place with every field of the advertisement", Edits: []Edit{
+				{File: "internal/routing/forward.go", Old: "\t\t\t\tcloned := route.Clone()\n\t\t\t\tcloned.LastUpdate = time.Now()\n\t\t\t\tt.routes[key][i] = cloned\n", New: "\t\t\t\t_ = i\n\t\t\t\tfresh := route.Clone()\n\t\t\t\tr.Target, r.NextHop, r.Metric, r.Sequence = fresh.Target, fresh.NextHop, fresh.Metric, fresh.Sequence\n\t\t\t\tr.Path, r.EncPath = fresh.Path, fresh.EncPath\n\t\t\t\tr.LastUpdate = time.Now()\n"},
 			}},
 			{Name: "rewrite: if-chain dispatch entry, swapped comparison", Edits: []Edit{
 				{File: "internal/agent/agent.go", Old: "func (a *Agent) processFrame(peerID identity.AgentID, frame *protocol.Frame) {\n\tswitch frame.Type {\n\tcase protocol.FrameStreamOpen:\n\t\ta.handleStreamOpen(peerID, frame)\n", New: "func (a *Agent) processFrame(peerID identity.AgentID, frame *protocol.Frame) {\n\tif protocol.FrameStreamOpen == frame.Type {\n\t\ta.handleStreamOpen(peerID, frame)\n\t\treturn\n\t}\n\tswitch frame.Type {\n"},
@@ -696,6 +725,8 @@ func runC12(p *kit.Program, r *kit.Report) {
 	r.Rule("C12.R1", "the NextHop of every route record built from an announcement derives only from the peer-id parameter of the frame dispatcher (the peer the frame arrived from)")
 	r.Rule("C12.R2", "announced paths: origin = [local id]; forwarded = local id prepended once to the received path (unchanged only when the path is absent or encrypted); replayed = local id prepended once to the stored path")
 	r.Rule("C12.R3", "every open (stream, UDP, ICMP) is sent to the NextHop of the route whose stored Path, after that hop, is the RemainingPath; relays send to RemainingPath[0] and forward RemainingPath[1:]")
+	r.Rule("C12.R5", "a stored route record is never refreshed in place with some fields of a newer advertisement while Path/EncPath (or Metric, Sequence, NextHop) keep the older advertisement's values")
+	r.Rule("C12.R6", "after an announcement has been recorded in the seen cache, no branch that gives up storing/forwarding it may depend on data that differs between copies of the same announcement (received path, seen-by list, sending peer) — except the self-in-seen-by test, or unless the branch removes the seen-cache entry again")
 	r.Rule("C12.R4", "every Frame* type constant stored into a protocol.Frame is compared against frame.Type in the frame dispatcher; types built only inside internal/peer (handshake, keepalive) may be compared in internal/peer instead")
 	cx := newC11Flood(p, r)
 	if cx == nil {
@@ -787,6 +818,33 @@ func runC12(p *kit.Program, r *kit.Report) {
 		r.Decide(bad == "" && nLeaves > 0, "C12.R1", l.key()+" NextHop", p.Pos(l.pos),
 			"next hop is the peer id the dispatcher received the frame from",
 			"the recorded next hop also derives from "+bad+", not only from the peer the frame arrived from: the route points at an agent that is not the neighbour which announced it, and opens along it are mis-delivered")
+	}
+	// R1 (path): the Path recorded with a learned route is the received path, unchanged
+	for _, l := range c13RouteLits(p) {
+		if _, isParam := l.vals["NextHop"].(*ssa.Parameter); !isParam {
+			continue
+		}
+		pv := l.vals["Path"]
+		if pv == nil {
+			r.Violation("C12.R1", l.key()+" Path", p.Pos(l.pos), "the learned route is recorded without its path: opens along it carry no relay list and stop at the next hop")
+			continue
+		}
+		var bad []string
+		for _, alt := range c11Resolve(p, pv) {
+			alt = c12Deref(alt)
+			if c, ok := alt.(*ssa.Const); ok && c.Value == nil {
+				continue // path absent / undecryptable
+			}
+			if ex, ok := alt.(*ssa.Extract); ok && ex.Index == 0 {
+				if c, ok := ex.Tuple.(*ssa.Call); ok && kit.CalleeOf(c).Name == "DecodePath" {
+					continue
+				}
+			}
+			bad = append(bad, c12Short(alt))
+		}
+		r.Decide(len(bad) == 0, "C12.R1", l.key()+" Path", p.Pos(l.pos),
+			"the recorded path is the decoded received path",
+			"the recorded path is "+strings.Join(c12Uniq(bad), " / ")+" rather than the received path as decoded: the stored chain of links is shifted or altered, so RemainingPath built from it names the wrong relays")
 	}
 	r.Count("learned_route_records", nLearned)
 	r.Require(nLearned >= 4, "floor: %d learned route records, expected at least 4", nLearned)
@@ -907,6 +965,38 @@ func runC12(p *kit.Program, r *kit.Report) {
 	}
 	r.Count("frame_types_sent", len(sent))
 	r.Require(len(sent) >= 12, "floor: %d distinct frame types sent, expected at least 12", len(sent))
+
+	// ---------------- R5
+	g4ReportInPlace(p, r, "C12.R5", "the entry keeps a path recorded from an earlier advertisement while staying fresh, so when the topology behind the next hop changes, opens along the recorded path are relayed to a link that no longer exists")
+
+	// ---------------- R6
+	nSkip := 0
+	for _, h := range cx.handlers {
+		d := c11FindDedup(cx, h)
+		if d == nil {
+			continue // C11.R1 reports the missing dedup
+		}
+		hn := kit.FuncName(h)
+		for _, sk := range g4SkipBranches(cx, h, d, false) {
+			nSkip++
+			key := fmt.Sprintf("%s give-up branch #%d after the seen mark", hn, sk.ord)
+			pos := g4SkipPos(p, sk)
+			if g4IsSelfSeenTest(cx, h, sk.cond) {
+				r.OK("C12.R6", key, pos, "the self-in-seen-by test (a copy that already passed through this agent)")
+				continue
+			}
+			var deps []string
+			for _, c := range g4SkipConds(cx, h, d, sk, false) {
+				deps = append(deps, g4PerCopyDeps(cx, h, d, c)...)
+			}
+			deps = c12Uniq(deps)
+			ok := len(deps) == 0 || g4UndoesMark(cx, sk)
+			r.Decide(ok, "C12.R6", key, pos,
+				"does not depend on per-copy data (or takes the seen mark back)",
+				"an announcement already recorded as seen is dropped depending on "+strings.Join(deps, ", ")+": a copy that fails this test marks the (origin, sequence) as seen, and the copy that would pass it arrives later and is discarded as a duplicate — the route is never learned although a valid path exists")
+		}
+	}
+	r.Count("give_up_branches_after_seen_mark", nSkip)
 }
 
 func c12Uniq(in []string) []string {
